@@ -529,7 +529,7 @@ def run(tier, seed, replay=None):
         "IEEE rounding is not modelled by the theorems; its effect is only measured here against 1e-9*L",
         "harness/compat.py import shim; numpy/numba/CPython/BLAS",
     ]
-    R.check_proofs(PROOF_FILES, build_targets=["theories/Props/C13.vo", "theories/Model/ShapesRun.vo",
+    sc.check_proofs_retry(R, PROOF_FILES, build_targets=["theories/Props/C13.vo", "theories/Model/ShapesRun.vo",
                                                "theories/Checker/ShapesCert.vo"])
 
     cases = []
